@@ -466,6 +466,128 @@ def r7(ctx, r):
         raise AnalysisBroken("expected at least 3 condition-variable waits in timer.hpp/timing_wheel.hpp, found %d" % n)
 
 
+def r9(ctx, r):
+    """'scheduling on a stopped service is refused rather than lost': schedule tests only the accepting flag, so every path of
+    stop() that ends with the state Stopped must leave that flag false — whatever drain() did to it on the way (a timed-out
+    drain re-opens the service)."""
+    fb, cg = ctx.fb(), ctx.cg()
+    for (cls, file, accf, statef, stopped) in ((TS, TSF, TS + "::_accepting", TS + "::_lifecycleState", "Stopped"), (TW, TWF, TW + "::_accepting", TW + "::_state", "STOPPED")):
+        fs = [f for f in fb.funcs(cls + "::stop", file) if f.ok]
+        if len(fs) != 1:
+            raise AnalysisBroken("%s::stop: %d definitions" % (short(cls), len(fs)))
+        f = fs[0]
+
+        def stores(g, accf=accf):
+            out = []
+            for e in g.stmts():
+                n = e.node
+                if n.get("k") == "mcall" and field_of(n.get("obj")) == accf and last(n.get("callee", "")) in ("store", "exchange", "operator="):
+                    out.append((e, const_value(n["args"][0]) if n.get("args") else None))
+            return out
+        # methods that may (transitively) set the flag true
+        may_open = set()
+        for g in fb.methods_of(cls):
+            if g.ok and any(v != 0 for (e, v) in stores(g)):
+                may_open.add(g.sig)
+        direct = set(may_open)
+        for g in fb.methods_of(cls):
+            if g.ok and g.sig not in may_open and (cg.reach([g], follow_lambdas=False) & direct):
+                may_open.add(g.sig)
+        own = dict((id(e), v) for (e, v) in stores(f))
+        vocab = Vocab(["acc"])
+
+        def eff(e, own=own, cls=cls, may_open=may_open):
+            if id(e) in own:
+                v = own[id(e)]
+                return [("set", "acc", bool(v))] if v is not None else [("havoc", "acc")]
+            if e.kind == "stmt" and e.node.get("k") == "mcall" and e.node.get("callee", "").startswith(cls + "::"):
+                callee = e.node["callee"]
+                if any(sig.startswith(callee + "(") for sig in may_open):
+                    return [("havoc", "acc")]
+            return None
+        pa = PredAbs(f, vocab, lambda n: None, eff)
+        marks = [e for e in f.stmts() if e.node.get("k") == "mcall" and field_of(e.node.get("obj")) == statef and last(e.node.get("callee", "")) == "store"
+                 and any(x.get("k") == "enum" and last(x["n"]) == stopped for x in walk(e.node))]
+        if not marks:
+            raise AnalysisBroken("%s::stop never stores %s" % (short(cls), stopped))
+        for m in marks:
+            r.instance()
+            r.expect(pa.entails(m, Not(A("acc"))), f, m, "%s stopped but accepting" % short(cls),
+                     "%s::stop can reach state %s with the accepting flag possibly true (%s): schedule() tests only that flag, so a timer scheduled after stop() returned is accepted — "
+                     "valid id, record stored — and never fires because the worker is gone" % (short(cls), stopped,
+                     "a drain() that timed out re-opens the service and nothing closes it again" if any("drain" in x for x in may_open) else "no store(false) on this path"),
+                     okdesc="%s::stop: accepting == false when the state becomes %s" % (short(cls), stopped))
+
+
+def r10(ctx, r):
+    """'If cancel reports success the old schedule's handler never starts afterwards.'  A firing that has been handed out of the
+    lock (copied into the ready vector) starts later, after every handler collected before it.  cancel(id) reports success when
+    it finds a live record or periodic entry under the id.  So a hand-out may not be followed, in the same critical section, by
+    re-arming a record under the same id — unless collect leaves an in-flight mark that cancel() tests before it claims success."""
+    from ..finite import dominating_facts
+    col = tsf(ctx, "collectDueLocked")
+    can = tsf(ctx, "cancel")
+    outp = [p_["n"] for p_ in col.params if "vector" in p_["t"]]
+    if len(outp) != 1:
+        raise AnalysisBroken("collectDueLocked: hand-out vector parameter not identified")
+    hand = [e for e in col.stmts() if e.node.get("k") == "mcall" and last(e.node.get("callee", "")) in ("push_back", "emplace_back") and (e.node.get("obj") or {}).get("k") == "var" and e.node["obj"]["n"] == outp[0]]
+    rearm = common.member_calls_on(col, TS + "::_records", ("emplace", "insert", "try_emplace", "insert_or_assign"))
+    if not hand:
+        raise AnalysisBroken("collectDueLocked: no hand-out found")
+    r.instance()
+    if not rearm:
+        r.ok("no re-arm under the fired id inside collect")
+        return
+    # the id the fired record was stored under, and the key of the re-arm
+    erased = common.member_calls_on(col, TS + "::_records", ("erase",))
+    for ra in rearm:
+        key = strip_casts(strip_wrappers(ra.node["args"][0])) if ra.node.get("args") else None
+        same_id = key is not None and key.get("k") == "var" and any(search(col, h, lambda x, ra=ra: x is ra, stop=lambda x: x in erased, eh=False) is not None for h in hand)
+        if not same_id:
+            continue
+        # marks collect writes on the way from the hand-out to the re-arm, and what cancel tests before it reports success
+        marks = set()
+        for rec in (TS + "::PeriodicTimer", TS + "::Record"):
+            for fld in ctx.fb().record(rec)["fields"]:
+                if fld["n"] in ("nextExecution", "tp", "handler", "interval", "id"):
+                    continue
+                for (e, n, k) in common.field_writes(col, rec + "::" + fld["n"]):
+                    if any(search(col, h, lambda x, e=e: x is e, eh=False) is not None for h in hand):
+                        marks.add(rec + "::" + fld["n"])
+        cinits = {}
+        for e in can.stmts():
+            if e.node.get("k") == "decl":
+                for dv in e.node["vars"]:
+                    if dv.get("init") is not None:
+                        cinits[dv["d"]] = dv["init"]
+
+        def members(c, depth=0):
+            out = set()
+            for x in walk(c):
+                if x.get("k") == "member":
+                    out.add(x["n"])
+                elif x.get("k") == "var" and x.get("d") in cinits and depth < 4:
+                    out |= members(cinits[x["d"]], depth + 1)
+            return out
+        # every place where cancel() decides "found" must have looked at the mark
+        retv = {strip_casts(strip_wrappers(e.node["v"])).get("n") for e in common.returns(can) if e.node.get("v") is not None and strip_casts(strip_wrappers(e.node["v"])).get("k") == "var"}
+        sites = [e for e in can.stmts() if e.node.get("k") == "bin" and e.node["op"] == "=" and strip_casts(e.node["lhs"]).get("k") == "var" and strip_casts(e.node["lhs"])["n"] in retv
+                 and const_value(e.node["rhs"]) == 1]
+        if not sites:
+            raise AnalysisBroken("cancel(): no `result = true` site for the returned variable %s" % sorted(retv))
+        tested = None
+        for e in sites:
+            t_e = set()
+            for (c, t) in dominating_facts(can, e):
+                t_e |= members(c)
+            tested = t_e if tested is None else (tested & t_e)
+        r.expect(bool(marks & tested), col, ra, "periodic firing handed out while its id stays cancellable",
+                 "collectDueLocked copies the due firing's handler into the ready vector and, in the same critical section, re-arms a record under the same id (`%s`): cancel(id) finds that record / the periodic entry "
+                 "and returns true, yet the firing already collected starts afterwards — after every handler collected before it has finished (collect leaves no in-flight mark that cancel() tests: collect writes %s, cancel tests %s)"
+                 % (show(ra.node)[:60], sorted(short(x) for x in marks) or "none", sorted(short(x) for x in tested if "canceled" in x or x in marks) or "only the canceled flags"),
+                 okdesc="in-flight mark written by collect and tested by cancel")
+
+
 def run(ctx, ck):
     ck.run_rule("C08-R1", "lock tables of the timer service and the timing wheel", "A1 guarded-by", lambda r: r1(ctx, r))
     ck.run_rule("C08-R2", "collect erases before hand-out and only non-cancelled; wheel unlinks+erases before firing", "A5 + A2", lambda r: r2(ctx, r))
@@ -474,4 +596,6 @@ def run(ctx, ck):
     ck.run_rule("C08-R4e", "wheel: stored deadline and bucket position come from the same delay", "A2 + dataflow shape", lambda r: r4e(ctx, r))
     ck.run_rule("C08-R5", "acceptance re-checked in the inserting critical section; valid id only after insertion", "A5 + A1, sibling", lambda r: r5(ctx, r))
     ck.run_rule("C08-R6", "stop/drain join the worker before clearing state", "A2", lambda r: r6(ctx, r))
+    ck.run_rule("C08-R9", "a stopped service / wheel never accepts: stop() ends with the accepting flag false on every path", "A5 with call summaries (may re-open)", lambda r: r9(ctx, r))
+    ck.run_rule("C08-R10", "a firing handed out of the lock can no longer be cancelled 'successfully'", "A2 path rule + mark/test agreement between collect and cancel", lambda r: r10(ctx, r))
     ck.run_rule("C08-R7", "condition-variable discipline (drain CV, tick CV)", "A1", lambda r: r7(ctx, r))
